@@ -26,7 +26,7 @@ LINE_PASSERS = ('skip_cond_incl', 'include_file')
 
 
 # minimum number of distinct obligations per rule, confirmed by hand on the pinned tree (below: exit 2)
-FLOORS = {'R10.1': 15, 'R10.2': 90, 'R10.3': 14, 'R10.4': 40, 'R10.5': 10, 'R10.6': 47, 'R10.7': 3, 'R10.8': 15, 'R10.10': 12, 'R10.11': 9}
+FLOORS = {'R10.1': 15, 'R10.2': 130, 'R10.3': 14, 'R10.4': 40, 'R10.5': 10, 'R10.6': 47, 'R10.7': 3, 'R10.8': 15, 'R10.10': 12, 'R10.11': 9, 'R10.12': 55}
 
 
 def _declare_rules(rep):
@@ -51,7 +51,7 @@ def run(P, rep, tier):
                        'defined or not), compared with C11 6.10.1/6.10.2; sibling agreement of the four directive scanners; memoised '
                        'lookups keep their side effects; option table of main.c evaluated per option. Decides the state-machine '
                        'skeleton and the plumbing; does not decide the selected text for all directive sequences and include graphs, '
-                       'nor #if arithmetic (C07). The contents of the hash tables (macro table, guard memo) are unknown to every rule: a lookup may find an entry or '
+                       'nor the value of whole #if expressions (the integer arms of the constant folder behind eval_const_expr are C07\'s, re-issued as R10.12). A `#` alone on its line is a null directive: each of the four scanners is also run on `#` / `d M` and must treat `d M` as an ordinary line (R10.2 nextline). The contents of the hash tables (macro table, guard memo) are unknown to every rule: a lookup may find an entry or '
                        'not. The two token-list joiners are run on concrete lists of 0..3 tokens (R10.10); the -D/-U plumbing is re-issued from C17 R17.9 and completed '
                        'by define_macro (R10.11).')
     rep.assumptions += ['the rest of the token stream after the analysed directive is arbitrary (cut at skip_line/skip_cond_incl/eval_const_expr/...)',
@@ -92,6 +92,7 @@ def run(P, rep, tier):
     guarded('R10.11', r1011_define_option, P, rep)
     guarded('R10.6', r106, P, rep)
     guarded('R10.9', r109_macro_table_order, P, rep)
+    guarded('R10.12', r1012_if_arithmetic, P, rep, tier)
 
 
 # ------------------------------------------------------------------------------------------------ R10.1
@@ -388,6 +389,8 @@ def _guard_scenario(T, d, variant=None):
             specs[6] = ('a0:w', 'w', 'TK_IDENT', True)
         elif variant == 'midline':
             specs[6] = ('a0:#', '#', 'TK_PUNCT', False)
+        elif variant == 'nextline':
+            specs[7] = (specs[7][0], specs[7][1], specs[7][2], True)     # `#` alone on its line, `d M` is the next line
         specs += T.line('e', [('#', 'TK_PUNCT'), ('endif', 'TK_IDENT')])
         specs += [('eof', '', 'TK_EOF', True)]
         ts = T.chain(specs)
@@ -484,7 +487,7 @@ def _r102_guard(P, u, T, rep, universe):
             construct = 'scan/%s' % d if not bad else 'not-a-conditional-directive/%s' % d
             what = 'detect_include_guard treats `#%s` as a conditional directive' % d
         rep.ob('R10.2', '%s:%s:%s' % (U, fn, construct), not bad, what, where=where, facts={'behaviours': sorted(cls)})
-    for variant in ('word', 'midline'):
+    for variant in ('word', 'midline', 'nextline'):
         for d in COND:
             try:
                 cls = _guard_class(P, u, T, d, variant)
@@ -494,9 +497,18 @@ def _r102_guard(P, u, T, rep, universe):
             if not cls or any(c.startswith('odd:') for c in cls):
                 rep.undecided('R10.2', '%s:%s:%s/%s' % (U, fn, variant, d), '%s: %s' % (fn, sorted(cls)))
                 continue
-            ok = 'accept' not in cls
+            if variant == 'nextline':
+                # a `#` alone on its line is a null directive (C11 6.10.7); the next line is ordinary text whatever its first word is.  Scanning on or
+                # answering NULL is fine, counting the line as a conditional directive is not
+                ok = not (cls & {'accept', 'nest'})
+                what = ('detect_include_guard takes the word `%s` at the start of the line after a `#` that stands alone on its line (a null directive) for the '
+                        'name of that directive (%s): the directive name must be on the same line as the `#`' % (
+                            d, 'hands the following lines to the skipper of nested conditionals' if 'nest' in cls else 'accepts it as the end of the guard'))
+            else:
+                ok = 'accept' not in cls
+                what = 'detect_include_guard accepts a word `%s` that is not a directive as the end of the guard' % d
             rep.ob('R10.2', '%s:%s:%s/%s' % (U, fn, 'non-directive-%s-not-accepted' % variant if ok else 'non-directive-%s-taken-for-directive' % variant, d), ok,
-                   'detect_include_guard accepts a word `%s` that is not a directive as the end of the guard' % d, where=where, facts={'behaviours': sorted(cls)})
+                   what, where=where, facts={'behaviours': sorted(cls)})
 
 
 def r102(P, u, T, rep, dres):
@@ -557,10 +569,12 @@ def r102(P, u, T, rep, dres):
                    'after skipping the conditional opened by `#%s`, %s does not examine the token it resumes at as a possible directive (%s): a conditional '
                    'that starts right after the `#endif` of the previous one is not counted and the nesting is lost' % (d, fn, r), where=where)
     # the same words where they are not directives: after a token that is not `#`, or after a `#` in the middle of a line
-    vsay = {'word': 'the word `%s` after an ordinary token', 'midline': '`# %s` in the middle of a line (not a directive)'}
+    vsay = {'word': 'the word `%s` after an ordinary token', 'midline': '`# %s` in the middle of a line (not a directive)',
+            'nextline': 'the word `%s` at the start of the line after a `#` that stands alone on its line (a null directive, C11 6.10.7: the directive name must be '
+                        'on the same line as the `#`)'}
     for fn in ('skip_cond_incl2', 'skip_cond_incl'):
         where = '%s:%d' % (U, u.fn(fn).line)
-        for variant in ('word', 'midline'):
+        for variant in ('word', 'midline', 'nextline'):
             for d in COND:
                 try:
                     cls, _ = _scanner_class(P, u, T, fn, d, variant)
@@ -589,6 +603,7 @@ def r102(P, u, T, rep, dres):
         rep.ob('R10.2', '%s:preprocess2:%s/%s' % (U, 'non-directive-midline-passed' if ok else 'non-directive-midline-taken-for-directive', d), ok,
                'the dispatcher treats `# %s` in the middle of a line as a directive; only `#` at the beginning of a line introduces one' % d,
                where='%s:%d' % (U, fnline))
+    _r102_null_directive(P, u, T, rep, universe)
     for d in universe:
         if d not in dres:
             continue
@@ -609,6 +624,58 @@ def r102(P, u, T, rep, dres):
         names = {'open': 'opens a conditional (pushes the stack)', 'close': 'acts on the open conditional', 'other': 'leaves the conditional stack alone'}
         rep.ob('R10.2', '%s:preprocess2:%s' % (U, construct), c == w,
                'the dispatcher %s at `#%s`; it must be one that %s' % (names[c], d, names[w]), where='%s:%d' % (U, line))
+
+
+# what a directive arm does; none of it may happen for the line after a null directive
+DIRECTIVE_ACTIONS = ('push_cond_incl', 'eval_const_expr', 'find_macro', 'skip_cond_incl', 'read_include_filename', 'include_file', 'search_include_paths',
+                     'search_include_next', 'read_macro_definition', 'read_line_marker', 'undef_macro', 'hashmap_put', 'hashmap_put2')
+
+
+def _r102_null_directive(P, u, T, rep, universe):
+    """`#` alone on its line is a null directive and has no effect (C11 6.10.7); a directive is `# name ... new-line`, so the first word of the NEXT line is
+    never a directive name.  The dispatcher is run on `#` / `d M` / `x y` for every word d it knows (and a pp-number, the `# 33 "file"` line marker form):
+    the only admissible transition is to resume at `d`, without an error, without touching the conditional stack and without any directive action."""
+    fnline = u.fn('preprocess2').line
+    words = [(d, 'TK_IDENT') for d in universe] + [('7', 'TK_PP_NUM')]
+    for d, kind in words:
+        name = d if kind == 'TK_IDENT' else 'pp-number'
+        try:
+            it, res = explore_directive(P, u, T, d, variant='nextline', kind=kind)
+        except Unsupported as e:
+            rep.undecided('R10.2', '%s:preprocess2:nextline/%s' % (U, name), 'cannot interpret the dispatcher: %s' % e)
+            continue
+        bad = None
+        good = 0
+        for ctx, out in res:
+            o = outcome(out)
+            acts = sorted(set(e[1] for e in calls(ctx, DIRECTIVE_ACTIONS)))
+            stores = [e for e in ctx.events if e[0] == 'fstore' and isinstance(e[1], Obj) and e[1].tname == 'CondIncl']
+            nulld = [e for e in ctx.events if e[0] == 'nullderef']
+            if o[0] == 'error':
+                why = 'it ends in the diagnostic of %s()' % o[1]
+            elif acts:
+                why = 'it calls %s' % ', '.join(acts)
+            elif stores or nulld:
+                why = 'it acts on the conditional stack'
+            elif o[0] == 'ret':
+                why = 'it runs to the end of the token list'
+            else:
+                t = o[1]
+                if is_resync(t) and t.meta['resync'] == 'skip_line' and idx_of(ctx, t.meta.get('from')) == 1:
+                    t = t.meta['from']      # skip_line applied to a token that begins a line hands back that token (R10.1 skip_line:*)
+                i = idx_of(ctx, t)
+                if i == 1:
+                    good += 1
+                    continue
+                why = 'it resumes at %s' % ('token %d of the scenario (text dropped or processed twice)' % i if i is not None else _line_start_ok(ctx, t)[1])
+            bad = bad or (ctx, why)
+        if bad is None and good == 0:
+            rep.undecided('R10.2', '%s:preprocess2:nextline/%s' % (U, name), 'the dispatcher has no path the analysis can follow on a null directive followed by a line beginning with `%s`' % d)
+            continue
+        rep.ob('R10.2', '%s:preprocess2:%s/%s' % (U, 'non-directive-nextline-passed' if bad is None else 'non-directive-nextline-taken-for-directive', name), bad is None,
+               'after a `#` that stands alone on its line (a null directive) the dispatcher takes the first word of the next line, `%s`, for the name of that directive: %s; '
+               'the directive name must be on the same line as the `#` and the next line is ordinary text' % (d, bad[1] if bad else ''),
+               where='%s:%d' % (U, _arm_line(bad[0], fnline) if bad else fnline), facts={'path': bad[0].trail if bad else None})
 
 
 # ------------------------------------------------------------------------------------------------ R10.4
@@ -2133,6 +2200,53 @@ def r1011_define_option(P, rep):
         return
     for k in ('accepts-every-body', 'one-macro', 'under-the-given-name', 'object-like', 'body-is-the-tokenised-text'):
         rep.ob('R10.11', '%s:%s:%s' % (U, fn, k), k not in fails, fails.get(k, ''), where=where)
+
+
+# ------------------------------------------------------------------------------------------------ R10.12
+# rules of C07 that state what value an integer constant expression has; `#if`/`#elif` select their group by that value
+IF_VALUE_RULES = ('R07.1', 'R07.2', 'R07.3', 'R07.4', 'R07.8', 'R07.9')
+
+
+def r1012_if_arithmetic(P, rep, tier):
+    """Which group `#if E` / `#elif E` selects is decided by the value of E, and E is evaluated by the parser's constant folder: eval_const_expr hands the
+    prepared tokens to const_expr(), i.e. to eval()/eval2().  A folder arm that computes another value than C11 prescribes (a comparison, division or shift
+    carried out with the wrong signedness, a result not reduced to its type, an operand of a decided && || ?: evaluated, a zero divisor not diagnosed) selects
+    the wrong text.  The folder is C07's subject; its integer-side obligations and the width of the path from the folder to the `#if` test are re-issued
+    here.  Left to C07 alone: floating arms (eval_double; no floating operand reaches `#if` unconverted), address constants and relocations, is_const_expr."""
+    rep.rule('R10.12', 'the value that selects the group of #if/#elif is the C11 value of the controlling expression: every integer arm of the constant folder behind '
+             'eval_const_expr applies the operator its node kind denotes, with the signedness of the converted operands, reduces the result to the node type, '
+             'diagnoses zero divisors and evaluates only the operands C evaluates; nothing between the folder and the test narrows the value (same obligations as C07)',
+             floor=FLOORS['R10.12'])
+    from ..report import Report, reissue
+    from . import c07
+    pu = P.unit(U)
+    # the link: the controlling expression is evaluated by const_expr (if this ever changes the re-issued obligations speak about the wrong evaluator)
+    fn = pu.fn('eval_const_expr')
+    used = [c for c in fn.calls('const_expr')]
+    rep.ob('R10.12', '%s:eval_const_expr:%s' % (U, 'evaluates-with-const_expr' if used else 'evaluator-unknown'), bool(used),
+           'eval_const_expr does not call const_expr any more: the analysis does not know which evaluator computes the value of the controlling expression',
+           where='%s:%d' % (U, fn.line))
+    if not used:
+        rep.undecided('R10.12', '%s:eval_const_expr:evaluator' % U, 'the evaluator of #if expressions is not const_expr: its arithmetic is not covered')
+        return
+    sub = Report('C07')
+    try:
+        c07.run(P, sub, tier)
+    except (AnalysisBroken, Unsupported) as e:
+        rep.undecided('R10.12', 'R07/analysis', 'the constant folder could not be analysed: %s' % e)
+        return
+
+    def keep(o):
+        k = o['key']
+        r = k.split(':', 1)[0]
+        if r in IF_VALUE_RULES:
+            return ':eval_double:' not in k
+        if r == 'R07.7':
+            return ':preprocess.c:' in k or ':const_expr:' in k
+        return False
+    n = reissue(rep, 'R10.12', sub, '#if / #elif would select another group than C11 prescribes: ', keep=keep)
+    if n == 0:
+        rep.undecided('R10.12', 'R07/none', 'C07 issued no obligation about the integer arms of the constant folder')
 
 
 # ------------------------------------------------------------------------------------------------ R10.10
